@@ -35,6 +35,7 @@ UNIT_DEPS = {
     'prim_mul': ['mul', 'conv'],
     'round': ['core', 'pow10', 'types', 'context'],
     'config': ['types'],
+    'clients': ['add', 'sub', 'mul', 'derived', 'prim_add', 'prim_sub', 'prim_mul', 'canon', 'cmp', 'scale', 'core'],
     'roots': ['core', 'context', 'config', 'cmp'],
     'inverse': ['core', 'context', 'config'],
     'prim_div': ['div', 'derived', 'conv', 'inverse'],
@@ -73,7 +74,7 @@ NOT_APPLICABLE = {
     'C13': 'statement about the real function e^x to one ulp; contracts here are integer-only and the Taylor loop has no termination measure (DESIGN.md section 7)',
     'C17': 'feature-gated code generic over foreign serde traits and strings; no contract within reach (DESIGN.md section 7)',
 }
-for _p in ['C05', 'C14', 'C16', 'C19']:
+for _p in ['C05', 'C14', 'C16']:
     NOT_APPLICABLE[_p] = _WIP
 
 _NOTE_COMMON = ('Assumed: num-bigint/num-traits/num-integer contracts (spec/shim_base.rs, vf/shimgen.py), std specs, '
@@ -181,6 +182,17 @@ prop('C15', units=['toint', 'conv', 'scale', 'core', 'pow10'], level='proof',
                  'ten integer types and From<BigInt> exact with scale 0, is_integer <=> i mod 10^s == 0'),
      level_note=_NOTE_COMMON + ' num-bigint to_i64/to_u64/... are assumed (Some iff fits). The closure of the MIN special case is wrapped in a block to carry its contract (inline annotation). From<(T,i64)> is not under contract (tuple-pattern parameter).',
      technique=_TECH)
+
+prop('C19', units=['clients', 'add', 'sub', 'mul', 'derived', 'prim_add', 'prim_sub', 'prim_mul', 'core', 'scale', 'pow10', 'conv', 'canon', 'cmp'], level='proof',
+     level_text=('By composition: every exact operation (add, subtract, multiply, negate, abs, double, halve, square, upward re-scaling, normalizing, cloning through '
+                 'references, adding/multiplying primitive and big integers, compound assignments) is proved against a contract whose precondition is only a scale bound and '
+                 'whose postcondition speaks only about the VALUE of the result (is_sum / is_diff / is_prod / same_val over i*10^-s), never about its representation; hence by '
+                 'induction on program length any straight-line program ends with the value of its evaluation over the rationals, however intermediates are represented, and eq/cmp '
+                 'taken along the way are the comparison of the values. In addition five client programs (mixed overloads, an accumulator with compound assignments, a zero carrying a '
+                 'scale and a one written as 1.00, normalize / re-scale / double-half / double negation with ==, square and primitive forms) are verified against the callee contracts '
+                 'only, which checks that the contracts do compose (scale bounds propagate). Hashes are excluded (C03 n/a); the Sum impls are not under contract'),
+     level_note=_NOTE_COMMON + ' The functional contract of the equality routine used by is_one / == is assumed (see C02).',
+     technique=_TECH + '; modular composition plus client programs verified against callee contracts only')
 
 prop('C20', units=['config', 'context', 'round', 'div'], level='proof',
      level_text=('The build-time constants are replaced by uninterpreted symbols (rewrite R9: the include!(OUT_DIR/...) items must be present), so every '
